@@ -21,12 +21,14 @@ TInit == GAInit /\ XInit /\ l = 1
 \* a new case: forget everything (the previous case ended Quiescent)
 TCaseStart ==
     /\ Ev("case_start")
+    /\ hx.ended                                  \* the previous case ran to its end (or ended as specified)
     /\ life' = <<>> /\ pool' = <<>> /\ loose' = {} /\ owed' = <<>>
     /\ op' = NoOp /\ heap' = <<>>
-    /\ cfg' = [mode |-> "strict", ety |-> R.ety]
+    /\ cfg' = [mode |-> "strict", ety |-> R.ety, rec |-> R.rec]
     /\ XReset
 
-TCaseEnd == Ev("case_end") /\ Quiescent /\ XQuiescent /\ UNCHANGED <<gaVars, xVars>>
+TCaseEnd == /\ Ev("case_end") /\ Quiescent /\ XQuiescent /\ ~hx.failed
+            /\ hx' = [hx EXCEPT !.ended = TRUE] /\ UNCHANGED <<gaVars, mem>>
 
 (***************************************************************************)
 (* Zero-sized element types cannot carry an identity, so their events log  *)
